@@ -914,4 +914,120 @@ theorem runVerify_transparent [DecidableEq κ] (key : VQ → κ)
         rw [h1, hd']
         exact congrArg _ (runVerify_transparent key hkey t cache hc)
 
+/-! ## `verify_basin` -/
+
+theorem verifyBasin_fresh (r b : Option Ident) (m av run : Bool) :
+    verifyBasin r b m av run false =
+      (av && (!run || idMatch r b m), run && av && idMatch r b m) := by
+  unfold verifyBasin idMatch
+  cases run <;> cases av <;> cases r <;> cases b <;> simp
+
+theorem verifyBasin_verified (r b : Option Ident) (m av run : Bool) :
+    verifyBasin r b m av run true = (av, true) := by
+  unfold verifyBasin
+  cases run <;> cases av <;> simp
+
+theorem runVerifyBasin_pure (r b : Option Ident) (m : Bool) :
+    ∀ (hist : List (Bool × Bool)) (v : Bool), (v = true → idMatch r b m = true) →
+      runVerifyBasin r b m v hist = hist.map fun c => c.1 && (!c.2 || idMatch r b m)
+  | [], _, _ => rfl
+  | c :: t, v, hv => by
+    simp only [runVerifyBasin, List.map_cons]
+    cases v with
+    | true =>
+      rw [verifyBasin_verified, runVerifyBasin_pure r b m t true hv]
+      simp only [hv rfl, Bool.or_true, Bool.and_true]
+    | false =>
+      rw [verifyBasin_fresh]
+      refine congrArg _ (runVerifyBasin_pure r b m t _ ?_)
+      intro h
+      simp only [Bool.and_eq_true] at h
+      exact h.2
+
+/-! ## priority order of `ds.basins` -/
+
+theorem prioLe_total (a b : BDef) : prioLe a b = true ∨ prioLe b a = true := by
+  simp only [prioLe, Bool.or_eq_true, Bool.and_eq_true, decide_eq_true_eq, beq_iff_eq]
+  omega
+
+theorem prioLe_trans {a b c : BDef} (h1 : prioLe a b = true) (h2 : prioLe b c = true) :
+    prioLe a c = true := by
+  simp only [prioLe, Bool.or_eq_true, Bool.and_eq_true, decide_eq_true_eq, beq_iff_eq] at *
+  omega
+
+theorem insertBy_pairwise {le : α → α → Bool} (htot : ∀ a b, le a b = true ∨ le b a = true)
+    (htr : ∀ {a b c}, le a b = true → le b c = true → le a c = true) (x : α) :
+    ∀ {l : List α}, l.Pairwise (fun a b => le a b = true) →
+      (insertBy le x l).Pairwise (fun a b => le a b = true)
+  | [], _ => by simp [insertBy]
+  | y :: t, h => by
+    simp only [insertBy]
+    have hy := List.pairwise_cons.mp h
+    split
+    · next hxy =>
+      refine List.pairwise_cons.mpr ⟨?_, h⟩
+      intro z hz
+      rcases List.mem_cons.mp hz with rfl | hzt
+      · exact hxy
+      · exact htr hxy (hy.1 z hzt)
+    · next hxy =>
+      have hyx : le y x = true := by
+        rcases htot x y with h' | h'
+        · exact absurd h' hxy
+        · exact h'
+      refine List.pairwise_cons.mpr ⟨?_, insertBy_pairwise htot htr x hy.2⟩
+      intro z hz
+      rcases mem_insertBy.mp hz with rfl | hzt
+      · exact hyx
+      · exact hy.1 z hzt
+
+theorem sortBy_pairwise {le : α → α → Bool} (htot : ∀ a b, le a b = true ∨ le b a = true)
+    (htr : ∀ {a b c}, le a b = true → le b c = true → le a c = true) :
+    ∀ l : List α, (sortBy le l).Pairwise (fun a b => le a b = true)
+  | [] => List.Pairwise.nil
+  | x :: t => by
+    simp only [sortBy]
+    exact insertBy_pairwise htot htr x (sortBy_pairwise htot htr t)
+
+theorem insertBy_perm {le : α → α → Bool} (x : α) : ∀ l : List α, (insertBy le x l).Perm (x :: l)
+  | [] => List.Perm.refl _
+  | y :: t => by
+    simp only [insertBy]
+    split
+    · exact List.Perm.refl _
+    · exact ((insertBy_perm x t).cons y).trans (List.Perm.swap x y t)
+
+theorem sortBy_perm {le : α → α → Bool} : ∀ l : List α, (sortBy le l).Perm l
+  | [] => List.Perm.refl _
+  | x :: t => by
+    simp only [sortBy]
+    exact (insertBy_perm x _).trans ((sortBy_perm t).cons x)
+
+/-- stability: an element that is strictly smaller than nothing in front of it keeps its place;
+in particular `insertBy` puts `x` in front of every element it is `le` to -/
+theorem insertBy_head {le : α → α → Bool} {x y : α} {t : List α} (h : le x y = true) :
+    insertBy le x (y :: t) = x :: y :: t := by
+  simp [insertBy, h]
+
+/-- `firstSome` returns the answer of the first element that answers -/
+theorem firstSome_first {g : α → Option β} {x : β} : ∀ {l : List α}, firstSome g l = some x →
+    ∃ pre o post, l = pre ++ o :: post ∧ g o = some x ∧ ∀ p ∈ pre, g p = none
+  | [], h => by cases h
+  | a :: t, h => by
+    simp only [firstSome] at h
+    cases ha : g a with
+    | some y =>
+      rw [ha] at h
+      simp only [Option.some.injEq] at h
+      subst h
+      exact ⟨[], a, t, rfl, ha, fun _ hp => by cases hp⟩
+    | none =>
+      rw [ha] at h
+      obtain ⟨pre, o, post, hl, ho, hpre⟩ := firstSome_first h
+      refine ⟨a :: pre, o, post, by rw [hl]; rfl, ho, ?_⟩
+      intro p hp
+      rcases List.mem_cons.mp hp with rfl | hp'
+      · exact ha
+      · exact hpre p hp'
+
 end DclabModel.Basin
